@@ -1,13 +1,26 @@
 package main
 
+import "strings"
+
 func init() { registry["C04"] = checkC04 }
 
-func v1(p string) string { return p + " v1\n" }
-func v2(p string) string { return p + " v2\n" }
+// file contents derived from the path; "big" has sizes that are exact multiples of the 32 KiB zlib window
+func v1(p string) string {
+	if p == "big" {
+		return strings.Repeat("0123456789abcdef", 2048)
+	}
+	return p + " v1\n"
+}
+func v2(p string) string {
+	if p == "big" {
+		return strings.Repeat("fedcba9876543210", 4096)
+	}
+	return p + " v2\n"
+}
 
 func checkC04(e *RunEnv) *CheckResult {
-	paths := []string{"a", "d/x", "d/y", "d/s/z", "ad/x", "d-x", "d0", "a b"}
-	singles := []string{"a", "d/x", "d/y", "d/s/z", "ad/x", "d-x", "d0", "a b", "d", "d/s", "ad", "nope", "d/nope", "d/", "./d", "./a", "d/s/."}
+	paths := []string{"a", "d/x", "d/y", "d/s/z", "ad/x", "d-x", "d0", "a b", "d/.goit", "big"}
+	singles := []string{"big", "a", "d/x", "d/y", "d/s/z", "ad/x", "d-x", "d0", "a b", "d", "d/s", "ad", "nope", "d/nope", "d/", "./d", "./a", "d/s/."}
 	pairAlpha := []string{"a", "d", "d/x", "nope"}
 	if e.Thorough() {
 		pairAlpha = []string{"a", "d", "d/x", "nope", "ad", "d-x", "d/s"}
